@@ -186,7 +186,7 @@ class Sample(object):
         # Build functions for total activity at time T - target and its derivative
         # This will be zero when activity is at target
         f = lambda t: sum(Ia*exp(-La*(t-To)) for Ia, La in data) - target
-        df = lambda t: sum(La*Ia*(To-1)*exp(-La*(t-To)) for Ia, La in data)
+        df = lambda t: -sum(La*Ia*exp(-La*(t-To)) for Ia, La in data)
         # Return target time, or 0 if the activity is already at or below target
         if f(0) <= 0:
             return 0
